@@ -338,8 +338,8 @@ fn check_bytes(c: &mut Ctx, input: &[u8], branch: BranchId, op: &str, class: &st
             replay_tx(input, branch, "read→write→read"),
         ),
         Ok(Err(e)) => c.r.violation(
-            &format!("C03:accepted-not-reparsable:{ver}:{op}:{class}"),
-            format!("write(read(b)) does not parse: {e}"),
+            &format!("C03:accepted-not-reparsable:{ver}:{}", drift_cause(&input[..parsed.pos.min(input.len())], &b1)),
+            format!("write(read(b)) does not parse ({op} on {class}): {e}"),
             replay_tx(input, branch, "read→write→read"),
         ),
         Ok(Ok(t2)) => {
